@@ -5,45 +5,45 @@ import json, os, re, subprocess, sys
 ROOT = os.path.dirname(os.path.dirname(os.path.abspath(__file__)))
 
 CHECKS = {
- "C01": ("exploration", "runtime monitor: well-formedness oracle on every genome produced by random operator histories and by real epochs (both executors, three constructors)",
+ "C01": ("exploration", "runtime monitor: well-formedness oracle on every genome produced by random operator histories (shared innovation registry, sensors-first and sensors-late layouts, unrelated random lineages) and by real epochs (both executors, three constructors, store / restore in the middle of a run)",
          "Held on the genomes produced by the sampled operator and epoch histories; says nothing about histories, sizes and option values not drawn (bounds in evidence)."),
- "C02": ("exploration", "runtime monitor: population / species partition invariants checked after every real NextEpoch under hostile option sets and fitness shapes",
-         "Held on the epochs produced; fitness bounded by 1e12, population 3..150, 25-60 consecutive epochs per scenario."),
- "C03": ("exploration", "runtime monitor: history-long innovation registry + per-generation event log of stored innovations (hook) checked online",
-         "Held on the populations evolved; the sequential-only clauses are not asserted for parallel epochs."),
+ "C02": ("exploration", "runtime monitor: population / species partition invariants checked after every real NextEpoch under hostile option sets (probabilities snapped to exactly 0 / 1) and 8 fitness shapes incl. values whose sum overflows",
+         "Held on the epochs produced: population 3..150, 25-60 consecutive epochs per scenario (a quarter of them with a store / restore in the middle), 8 fitness shapes including finite values whose sum overflows."),
+ "C03": ("exploration", "runtime monitor: history-long innovation / node-id registry (control nodes of modules included) + per-generation event log of stored innovations (hook) checked online; store / restore in the middle of a run; modular start genomes (asexual reproduction)",
+         "Held on the populations evolved; the sequential-only clauses are not asserted for parallel epochs; a restored population starts a new history."),
  "C04": ("exploration", "runtime monitor: reference alignment oracle over before/after snapshots of parents and child for the three crossovers",
          "Held on the sampled parent pairs with common ancestry (family members grown by operator histories)."),
- "C05": ("exploration", "runtime monitor: per-mutator before/after relation oracle over snapshots, with empty / matching / non-matching innovation records",
+ "C05": ("exploration", "runtime monitor: per-mutator before/after relation oracle over snapshots, with empty / matching / non-matching innovation records, mutators applied in place in chains on one genome object",
          "Held on the sampled genomes and records; a false result of add-node / add-link is outside the statement and only counted."),
- "C06": ("exploration", "runtime monitor: snapshot equality, object-address disjointness and mutation-independence oracle for duplicate and spawn",
-         "Held on the sampled genomes (evolved, hand-built, modular); pointer disjointness is observed through exported fields only."),
- "C07": ("exploration", "runtime monitor: independent reference implementation of the NEAT compatibility formula compared with both methods on synthetic and evolved gene lists",
+ "C06": ("exploration", "runtime monitor: snapshot equality, object-address disjointness (exported fields and the node look-up view), sibling copies and mutation-independence oracle for duplicate and spawn; modular genomes with shared module IO",
+         "Held on the sampled genomes (evolved, hand-built, modular)."),
+ "C07": ("exploration", "runtime monitor: independent reference implementation of the NEAT compatibility formula compared with both methods on synthetic and evolved gene lists (equal and different genome ids); the measured genomes must stay unchanged",
          "Held on the sampled pairs; relative tolerance 1e-9 for the different summation orders."),
- "C08": ("exploration", "runtime monitor: hook after every placement in speciate recomputes distances to all representatives with the reference formula; offline reference speciator on shuffled batches",
-         "Held on the placements observed; exact ties at the threshold have measure zero and accept either answer."),
- "C09": ("exploration", "runtime monitor: quotas, expected offspring and parent pools recomputed from pre-epoch snapshots and compared at the Prepared / ReproduceStart / ReproduceEnd hooks of real epochs",
+ "C08": ("exploration", "runtime monitor: hook after every placement in speciate (also inside the three constructors and ReadPopulation of a stored run) recomputes all distances with the reference formula (the library's figure only breaks ties of rounding, no tolerance at the threshold); offline reference speciator on shuffled batches",
+         "Held on the placements observed, including representatives exactly at the threshold."),
+ "C09": ("exploration", "runtime monitor: quotas, expected offspring and parent pools recomputed from pre-epoch snapshots and compared at the Prepared / ReproduceStart / ReproduceEnd hooks of real epochs (pool size exact; the pool must be unchanged when the species reproduces)",
          "Held on the epochs produced; fitness bounded by 1e12 with at least one positive value."),
  "C10": ("exploration", "runtime monitor: independent snapshot of each sizeable species' champion at the Prepared hook, searched for in the next generation",
          "Held on the champions observed (both executors, with stolen babies and delta coding)."),
- "C11": ("exploration", "runtime monitor: expected multigraph built from the genome snapshot compared with Genesis / Phenotype() results and with every graph-view query over all ordered id pairs",
+ "C11": ("exploration", "runtime monitor: expected multigraph built from the genome snapshot compared with Genesis / Phenotype() results and with every graph-view query over all ordered id pairs; re-expression after in-place changes; modules sharing IO nodes; the genome must stay unchanged",
          "Held on the sampled genomes (<= 40 nodes) and the organisms of real epochs."),
- "C12": ("exploration", "runtime monitor: reference topological evaluation of generated DAGs compared with the four solver paths",
+ "C12": ("exploration", "runtime monitor: reference topological evaluation of generated DAGs (forward links may carry the recurrent label) compared with all solver paths: fresh instances, a second input vector, two solvers of one network, mixed-mode sequences with and without flush on one instance",
          "Held on the sampled DAGs, weights and inputs; tolerance 1e-9 relative for summation order."),
- "C13": ("exploration", "runtime monitor: differential execution of random operation programs on a flushed instance vs a freshly built one, bit-exact",
+ "C13": ("exploration", "runtime monitor: differential execution of random operation programs on a flushed instance vs a freshly built one, bit-exact; recurrent, time-delayed and modular (generated modules) networks, both solvers",
          "Held on the sampled networks and programs."),
- "C14": ("exploration", "runtime monitor: longest-path DP oracle and visited-mark inspection after capped / uncapped depth queries; child stack limit turns non-termination into a fatal signature",
+ "C14": ("exploration", "runtime monitor: longest-path DP oracle and visited-mark inspection after capped / uncapped depth queries, mixed query sequences; forward links labelled recurrent; child stack limit turns non-termination into a fatal signature",
          "Held on the sampled graphs (<= 14 nodes, sparse)."),
- "C15": ("exploration", "runtime monitor: write/read round trips compared by independent snapshots (genomes, organisms, populations, solver models, experiments)",
-         "Held on the sampled artefacts; module link weights restricted to 1.0 which is all the YAML format can express."),
- "C16": ("exploration", "Go race detector over parallel epochs with injected delays at the Yield / ReproduceStart hooks + population monitors + porcupine linearizability check of recorded registry histories",
+ "C15": ("exploration", "runtime monitor: write/read round trips compared by independent snapshots (genomes incl. >500-node ones, organisms one by one and in batches, populations, solver models, experiments incl. empty trials)",
+         "Held on the sampled artefacts; module link weights restricted to 1.0 which is all the YAML format can express; no negative zero."),
+ "C16": ("exploration", "Go race detector over parallel epochs (delays injected at the Yield / ReproduceStart hooks, cold starts on new Options / Population objects, debug log level, a cancelled epoch) + population monitors + shared-list integrity + porcupine linearizability check of recorded registry histories",
          "Held on the interleavings that occurred (count in evidence); the race detector sees only accesses that happened."),
- "C17": ("exploration", "runtime monitor: serialised populations of repeated runs compared in-process (after unrelated work, GC) and across separate processes (GOGC=1, GOMAXPROCS=1)",
+ "C17": ("exploration", "runtime monitor: serialised populations of repeated runs compared in-process (same input objects, changed copy of used options vs fresh options, after unrelated work and a GC) and across separate processes (GOGC=1, GOMAXPROCS=1); inputs must come back unmodified",
          "Held on the sampled scenarios; fitness is a deterministic function of the genome."),
- "C18": ("exploration", "runtime monitor: independent closed forms, range, monotonicity (4 ulp tolerance) over breakpoint-dense inputs; registry enumerated over all 256 codes",
+ "C18": ("exploration", "runtime monitor: independent closed forms (relative 1e-12), range, monotonicity (4 ulp tolerance) over breakpoint-dense inputs; module activators incl. input immutability; registry enumerated over all 256 codes and extended at run time on factories of their own",
          "Held on the sampled inputs with |x| <= 1e300; the registry part is exhaustive over type codes."),
- "C19": ("exploration", "runtime monitor: textbook definitions on sorted copies compared with Floats / Trial / Experiment aggregates over generated series and synthetic experiments",
+ "C19": ("exploration", "runtime monitor: textbook definitions on sorted copies compared with Floats / Trial / Experiment aggregates over generated series (incl. large common offsets; data-relative tolerances) and synthetic experiments (aggregates re-checked after in-place reordering; returned series must stay stable)",
          "Held on the sampled series (length 0..200) and experiments; variance asserted for n >= 2."),
- "C20": ("fault_enumeration", "trace checker over the recorded evaluator / observer call log of real Execute runs, enumerating solved patterns, evaluator-error positions and cancellation points",
+ "C20": ("fault_enumeration", "trace checker over the recorded evaluator / observer call log of real Execute runs, enumerating solved patterns, evaluator-error positions (plain, with the solved flag, deadline-like), cancellation points, pre-allocated and reused Experiment objects",
          "Exhaustive within the stated bounds (trials x generations x solved patterns x fault positions); nothing beyond them."),
 }
 
